@@ -94,6 +94,9 @@ func c13Run(w *ndWriter, rng *rand.Rand, askers int, classes []string, modes []s
 				if class == "never" || class == "late" {
 					to = 3 * time.Millisecond
 				}
+				if class == "never" { // also a zero and a negative timeout (a deadline that has already passed): times out at once
+					to = []time.Duration{3 * time.Millisecond, 0, -time.Millisecond}[r.req%3]
+				}
 				v, err := ask.AskOnceWithTimeout(actor, to)
 				val = v
 				if err == fpgo.ErrActorAskTimeout {
@@ -118,7 +121,7 @@ func c13Run(w *ndWriter, rng *rand.Rand, askers int, classes []string, modes []s
 	go func() { wg.Wait(); close(done) }()
 	select {
 	case <-done:
-	case <-time.After(30 * time.Second):
+	case <-time.After(8 * time.Second): // an ask that never returns is reported by the validator (no res line)
 	}
 	// liveness probe: the actor still takes and answers a fresh request
 	pr := &c13Req{req: askers + 1, msg: 7, class: "immediate", release: make(chan struct{})}
